@@ -41,13 +41,14 @@ class LoopSpec:
     ghost = None
     var = None
 
-    def __init__(self, inv, var=None, ghost=None, havoc=None, for_guard=None, for_item=None, step=None, update=None):
+    def __init__(self, inv, var=None, ghost=None, havoc=None, for_guard=None, for_item=None, step=None, update=None, abstracts=()):
         self.inv = inv
         self.update = update              # ghost update at the end of each iteration: update(it, pre_env, env, g)
         self.step = step                  # two-state claims about one iteration: step(it, pre_env, env, g) -> dict
         self.var = var
         self.ghost = ghost
         self._havoc = havoc
+        self.abstracts = tuple(abstracts)   # containers mutated in the body whose abstraction another havoc entry provides
         self.for_guard = for_guard
         self.for_item = for_item
 
